@@ -911,3 +911,121 @@ func queryDiffMonitor(rep *Report, c *L1Case) {
 		}
 	}
 }
+
+// outputLogMonitor recomputes every bridge's output log (index -> root, proposal time) and period
+// from the recorded history of accepted creations, proposals and deletions - not from keeper reads -
+// and requires (a) every accepted finalization on bridge b to be justified by an output stored
+// UNDER bridge b at the claimed index whose root is the commitment of the message's fields and which
+// is final by bridge b's own period; (b) every honest claim - leaf, proof and root of a tree the
+// harness proposed at exactly (b, index), output final, leaf unpaid, escrow funded - to be accepted.
+func outputLogMonitor(prop string) L1Monitor {
+	type entry struct {
+		root []byte
+		at   int64
+	}
+	floorSec := func(ns int64) int64 {
+		q := ns / 1000000000
+		if ns%1000000000 < 0 {
+			q--
+		}
+		return q
+	}
+	return func(rep *Report, c *L1Case) {
+		tr := c.Track
+		logs := map[uint64]map[uint64]entry{}
+		next := map[uint64]uint64{}
+		period := map[uint64]int64{}
+		paid := map[string]bool{}
+		for i, o := range c.Ops {
+			v := viewL1(c.Obs[i])
+			ok := v.OK()
+			switch o.Kind {
+			case "create":
+				if ok {
+					id, _ := v.RespN()
+					period[id] = o.Config.Period
+				}
+			case "propose":
+				if ok {
+					if logs[o.Bridge] == nil {
+						logs[o.Bridge] = map[uint64]entry{}
+					}
+					logs[o.Bridge][o.Idx] = entry{append([]byte{}, o.Root...), o.Now}
+					next[o.Bridge] = o.Idx + 1
+				}
+			case "delete":
+				if ok {
+					for k := range logs[o.Bridge] {
+						if k >= o.Idx {
+							delete(logs[o.Bridge], k)
+						}
+					}
+					next[o.Bridge] = o.Idx
+				}
+			case "finalize":
+				if len(o.Version) != 1 || o.Amt == nil {
+					continue
+				}
+				root := outputRootOf(o.Version[0], o.SRoot, o.BHash)
+				ent, has := logs[o.Bridge][o.Idx]
+				final := has && floorSec(ent.at+period[o.Bridge]) <= floorSec(o.Now)
+				if ok {
+					why := ""
+					switch {
+					case !has:
+						why = fmt.Sprintf("bridge %d has no output %d", o.Bridge, o.Idx)
+					case !bytes.Equal(ent.root, root):
+						why = fmt.Sprintf("output %d of bridge %d commits to another root than the message's storage root / block hash", o.Idx, o.Bridge)
+					case !final:
+						why = fmt.Sprintf("output %d of bridge %d is not final by that bridge's period of %d ns", o.Idx, o.Bridge, period[o.Bridge])
+					}
+					if why != "" {
+						if other, hasT := logs[o.Idx][o.Bridge]; hasT && bytes.Equal(other.root, root) {
+							why += fmt.Sprintf("; the root is the one of output %d of bridge %d", o.Bridge, o.Idx)
+						}
+						l1Violate(rep, c, i, prop+":claim-against-foreign-output", fmt.Sprintf("bridge %d paid %s%s (sequence %d) for a claim against output index %d, but %s", o.Bridge, o.Amt, o.Denom, o.Seq, o.Idx, why))
+					}
+					if leaf := leafOfOp(o); leaf != nil {
+						paid[fmt.Sprintf("%d:%x", o.Bridge, leaf)] = true
+					}
+					continue
+				}
+				// refused: was it an honest claim against a final own output?
+				if !final || !bytes.Equal(ent.root, root) || o.Amt.Sign() <= 0 || !o.Amt.IsUint64() || i == 0 {
+					continue
+				}
+				if c.idOf(o.Sender) == 0 || c.idOf(o.To) == 0 {
+					continue
+				}
+				leaf := leafOfOp(o)
+				if leaf == nil || paid[fmt.Sprintf("%d:%x", o.Bridge, leaf)] {
+					continue
+				}
+				ai, di := idxU(tr.Accts, EscrowBase+o.Bridge), idxS(tr.Denoms, o.Denom)
+				if ai < 0 || di < 0 || viewL1(c.Obs[i-1]).Bal(tr, ai, di).Cmp(o.Amt) < 0 {
+					continue
+				}
+				honest := false
+				for _, pt := range curTrees {
+					if !bytes.Equal(pt.Root, root) || !bytes.Equal(pt.Tree.Root(), o.SRoot) {
+						continue
+					}
+					for k, w := range pt.Tree.Ws {
+						if w.Bridge != o.Bridge || w.Seq != o.Seq || w.From != o.From || w.To != o.To || w.Denom != o.Denom || w.Amt.Cmp(o.Amt) != 0 {
+							continue
+						}
+						pr := pt.Tree.Proof(k)
+						same := len(pr) == len(o.Proofs)
+						for x := 0; same && x < len(pr); x++ {
+							same = bytes.Equal(pr[x], o.Proofs[x])
+						}
+						honest = honest || same
+					}
+				}
+				if honest {
+					l1Violate(rep, c, i, prop+":honest-claim-refused", fmt.Sprintf("the claim of %s%s (bridge %d, sequence %d) with the proof of a leaf of the tree proposed as output %d of bridge %d was refused although that output is final, the leaf is unpaid and the escrow is funded", o.Amt, o.Denom, o.Bridge, o.Seq, o.Idx, o.Bridge))
+				}
+			}
+		}
+	}
+}
